@@ -1,11 +1,12 @@
 // C17 - LOBPCG: on success, the k smallest eigenvalues of (A, B) in ascending order, eigenvectors() an n-by-k matrix X
 // with X'BX = I, residuals() = A X - B X diag(lambda) with every column norm below tol*n; otherwise the status says so.
-// E1 (depth 1): the complete cross product of an enumerated catalogue - no random draws:
+// E1: every history of up to 3 (quick) / 5 (thorough) compute() calls on one solver object, for the complete cross
+// product of an enumerated catalogue - no random draws:
 //   A   sparse symmetric, n in {12,16,20}: tridiagonal with k well separated small diagonal entries, 2-level coupling
 //       strengths, and a 2-D 5-point Laplacian-like matrix with a separated low end,
 //   B   none | diagonal SPD | tridiagonal SPD,      preconditioner none | inverse diagonal of A,
 //   k   1..3 (5k < n),      X0  leading coordinate vectors | Vandermonde columns | shifted ones patterns (full rank),
-//   maxit in {5, 50},  tol in {1e-7, 1e-5}.
+//   compute arguments (maxit, tol) in {(5,1e-7), (50,1e-7), (5,1e-5), (50,1e-5), (50,1e-11), (0,1e-7), (1,1e-12)}.
 // Vacuity rule: if fewer than half of the subjects reach Success the harness exits with status 3 (broken machinery).
 #include "engine/common.h"
 #include "engine/oracle.h"
@@ -64,11 +65,78 @@ static MatL make_X0(int n, int k, int kind)
     return X;
 }
 
+// Arguments of one compute() call; the first four are the original depth-1 catalogue (their keys are unchanged).
+struct Arg { int maxit; double tol; };
+static const Arg ARGS[] = {{5, 1e-7}, {50, 1e-7}, {5, 1e-5}, {50, 1e-5}, {50, 1e-11}, {0, 1e-7}, {1, 1e-12}};
+static const int NARGS = 7;
+static std::string arg_str(const Arg& a) { return "C(" + num(a.maxit) + "," + std::string(gnum(a.tol)) + ")"; }
+
+struct Sub { int n, akind, bkind, prec, k, x0; };
+
+// canonical state of a solver object: everything a later compute() or an accessor can depend on
+static uint64_t canon(LOBPCGSolver<double>& s)
+{
+    Fnv f;
+    Eigen::MatrixXd X = Eigen::MatrixXd(s.X);
+    f.pod(int(X.rows())); f.pod(int(X.cols()));
+    for (Eigen::Index j = 0; j < X.cols(); j++) for (Eigen::Index i = 0; i < X.rows(); i++) f.pod(X(i, j));
+    for (Eigen::Index i = 0; i < s.m_evalues.size(); i++) f.pod(s.m_evalues[i]);
+    Eigen::MatrixXd R = Eigen::MatrixXd(s.m_residuals);
+    for (Eigen::Index j = 0; j < R.cols(); j++) for (Eigen::Index i = 0; i < R.rows(); i++) f.pod(R(i, j));
+    f.pod(int(s.m_info));
+    return f.h;
+}
+
+// The oracle of the property, evaluated on the state right after compute(maxit, tol).
+static void check_state(LOBPCGSolver<double>& solver, const Sub& s, double tol, const MatL& A, const MatL& B, const VecL& refvals,
+                        const std::string& key, const std::string& rp, Local& L, bool d1)
+{
+    const int n = s.n, k = s.k;
+    auto viol = [&](const std::string& c, const std::string& d) { L.violate(key + "|" + c, rp, d); };
+    const int info = solver.info();
+    if (info != Eigen::Success) { L.count("not_success"); return; }
+    L.count("success");
+    if (d1) L.count("d1_success");
+    Fnv f; f.str(key);
+    L.distinct.insert(f.h);
+    L.sample("{\"subject\": " + jstr(key) + ", \"info\": \"Success\"}", 4);
+    Eigen::VectorXd ev = solver.eigenvalues();
+    Eigen::MatrixXd X = solver.eigenvectors(), Rs = solver.residuals();
+    if (ev.size() != k) { viol("count", "eigenvalues().size()=" + num(long(ev.size())) + " for block size " + num(k)); return; }
+    const LD nA = fro(A);
+    if (X.rows() != n || X.cols() != k) { viol("eigenvectors-shape", "eigenvectors() is " + num(long(X.rows())) + "x" + num(long(X.cols())) + ", expected " + num(n) + "x" + num(k)); return; }
+    MatL Xl = X.cast<LD>();
+    // signature of the known finding C17-spurious-zero-pair: a (numerically) zero eigenvector column
+    std::string sig;
+    for (int i = 0; i < k; i++) if (Xl.col(i).norm() < 1e-3L) sig = " [zero eigenvector column " + num(i) + "]";
+    for (int i = 0; i < k; i++)
+    {
+        if (!std::isfinite(ev[i])) { viol("nonfinite", "eigenvalue not finite"); return; }
+        if (i + 1 < k && ev[i] > ev[i + 1]) viol("order", "eigenvalues not ascending");
+        // residual norm < tol*n implies |lambda - reference| <= tol*n / sqrt(lambda_min(B)) (+ rounding)
+        const LD err = std::abs(LD(ev[i]) - refvals[i]), bound = 10 * LD(tol) * n + 1e3L * LD(std::numeric_limits<double>::epsilon()) * nA;
+        L.ratio("values", err / bound);
+        if (!(err <= bound)) viol("values", "lambda_" + num(i) + "=" + gnum(ev[i]) + " but the reference smallest eigenvalue #" + num(i) + " is " + gnum(refvals[i]) + sig);
+    }
+    const LD g = maxabs(MatL(Xl.transpose() * B * Xl - MatL::Identity(k, k)));
+    L.ratio("XBX", g / 1e-8L);
+    if (!(g <= 1e-8L)) viol("X'BX=I", "max|X'BX - I|=" + gnum(g) + sig);
+    if (Rs.rows() != n || Rs.cols() != k) { viol("residuals-shape", "residuals() is " + num(long(Rs.rows())) + "x" + num(long(Rs.cols()))); return; }
+    MatL Rref = A * Xl - B * Xl * ev.cast<LD>().asDiagonal();
+    const LD e = maxabs(MatL(Rs.cast<LD>() - Rref)), eb = 1e3L * LD(std::numeric_limits<double>::epsilon()) * nA * n;
+    L.ratio("residuals_identity", e / eb);
+    if (!(e <= eb)) viol("residuals", "residuals() differs from A X - B X diag(lambda) by " + gnum(e));
+    // the tolerance is the one of the compute() call that produced this state (the most recent one); the true residual is
+    // allowed the rounding of forming A X - B X diag(lambda) in double on top of it
+    for (int i = 0; i < k; i++)
+        if (!(Rref.col(i).norm() < LD(tol) * n + eb)) viol("residual-norm", "column " + num(i) + " has norm " + gnum(Rref.col(i).norm()) + " >= tol*n = " + gnum(LD(tol) * n) + " (tol of the most recent compute())");
+}
+
 int main(int argc, char** argv)
 {
     Config cfg = parse_args(argc, argv, 240, 900);
     Runner R("C17", cfg);
-    struct Sub { int n, akind, bkind, prec, k, x0, maxit, tol; };
+    const int depth = cfg.quick() ? 3 : 5;
     std::vector<Sub> subs;
     for (int n : {12, 16, 20})
         for (int ak = 0; ak < 3; ak++)
@@ -76,79 +144,78 @@ int main(int argc, char** argv)
                 for (int pr = 0; pr < 2; pr++)
                     for (int k = 1; k <= 3; k++)
                         for (int x0 = 0; x0 < 3; x0++)
-                            for (int mi = 0; mi < 2; mi++)
-                                for (int tl = 0; tl < 2; tl++)
-                                    if (5 * k < n) subs.push_back({n, ak, bk, pr, k, x0, mi, tl});
-    R.run("catalogue", subs.size(), [&](uint64_t idx, Local& L) {
+                            if (5 * k < n) subs.push_back({n, ak, bk, pr, k, x0});
+    // E1: breadth-first over histories of compute(maxit, tol) calls on ONE solver object (a later compute() continues from
+    // the iterate of the earlier one); solver objects are copyable, so a state is a live object; states with the same
+    // canonical hash (iterate, eigenvalues, residuals, status) are merged.
+    R.run("histories", subs.size(), [&](uint64_t idx, Local& L) {
         const Sub s = subs[idx];
         const int n = s.n, k = s.k;
-        const int maxit = s.maxit == 0 ? 5 : 50;
-        const double tol = s.tol == 0 ? 1e-7 : 1e-5;
-        const std::string key = "LOBPCG|n=" + num(n) + ",A" + num(s.akind) + ",B" + num(s.bkind) + ",prec" + num(s.prec) + ",k=" + num(k) + ",X0_" + num(s.x0) + ",maxit=" + num(maxit) + ",tol=" + std::string(gnum(tol));
-        const std::string rp = "catalogue#" + num(idx);
-        auto viol = [&](const std::string& c, const std::string& d) { L.violate(key + "|" + c, rp, d); };
+        const std::string skey = "LOBPCG|n=" + num(n) + ",A" + num(s.akind) + ",B" + num(s.bkind) + ",prec" + num(s.prec) + ",k=" + num(k) + ",X0_" + num(s.x0);
+        const std::string rp = "histories#" + num(idx);
         const MatL A = make_A(n, s.akind, k), B = make_B(n, s.bkind), X0 = make_X0(n, k, s.x0);
         Eigen::GeneralizedSelfAdjointEigenSolver<MatL> ref(A, B);
+        const VecL refvals = ref.eigenvalues();
         SpMat As = Eigen::MatrixXd(A.cast<double>()).sparseView(), Bs = Eigen::MatrixXd(B.cast<double>()).sparseView(), Xs = Eigen::MatrixXd(X0.cast<double>()).sparseView();
-        L.evaluations++;
-        L.traces++;
+        struct Node { LOBPCGSolver<double> s; std::string hist; };
+        std::vector<Node> frontier;
+        std::set<uint64_t> seen;
         try
         {
-            LOBPCGSolver<double> solver(As, Xs);
-            if (s.bkind) solver.setB(Bs);
+            LOBPCGSolver<double> fresh(As, Xs);
+            if (s.bkind) fresh.setB(Bs);
             if (s.prec)
             {
                 SpMat P(n, n);
                 for (int i = 0; i < n; i++) P.insert(i, i) = 1.0 / double(A(i, i));
-                solver.setPreconditioner(P);
+                fresh.setPreconditioner(P);
             }
-            solver.compute(maxit, tol);
-            L.transitions++;
-            const int info = solver.info();
-            Fnv f; f.str(key);
-            L.states.insert(f.h);
-            if (info != Eigen::Success) { L.count("not_success"); return; }
-            L.count("success");
-            L.distinct.insert(f.h);
-            L.sample("{\"subject\": " + jstr(key) + ", \"info\": \"Success\"}", 4);
-            Eigen::VectorXd ev = solver.eigenvalues();
-            Eigen::MatrixXd X = solver.eigenvectors(), Rs = solver.residuals();
-            if (ev.size() != k) { viol("count", "eigenvalues().size()=" + num(long(ev.size())) + " for block size " + num(k)); return; }
-            const LD nA = fro(A);
-            for (int i = 0; i < k; i++)
-            {
-                if (!std::isfinite(ev[i])) { viol("nonfinite", "eigenvalue not finite"); return; }
-                if (i + 1 < k && ev[i] > ev[i + 1]) viol("order", "eigenvalues not ascending");
-                // residual norm < tol*n implies |lambda - reference| <= tol*n / sqrt(lambda_min(B)) (+ rounding)
-                const LD err = std::abs(LD(ev[i]) - ref.eigenvalues()[i]), bound = 10 * LD(tol) * n + 1e3L * LD(std::numeric_limits<double>::epsilon()) * nA;
-                L.ratio("values", err / bound);
-                if (!(err <= bound)) viol("values", "lambda_" + num(i) + "=" + gnum(ev[i]) + " but the reference smallest eigenvalue #" + num(i) + " is " + gnum(ref.eigenvalues()[i]));
-            }
-            if (X.rows() != n || X.cols() != k) { viol("eigenvectors-shape", "eigenvectors() is " + num(long(X.rows())) + "x" + num(long(X.cols())) + ", expected " + num(n) + "x" + num(k)); return; }
-            MatL Xl = X.cast<LD>();
-            const LD g = maxabs(MatL(Xl.transpose() * B * Xl - MatL::Identity(k, k)));
-            L.ratio("XBX", g / 1e-8L);
-            if (!(g <= 1e-8L)) viol("X'BX=I", "max|X'BX - I|=" + gnum(g));
-            if (Rs.rows() != n || Rs.cols() != k) { viol("residuals-shape", "residuals() is " + num(long(Rs.rows())) + "x" + num(long(Rs.cols()))); return; }
-            MatL Rref = A * Xl - B * Xl * ev.cast<LD>().asDiagonal();
-            const LD e = maxabs(MatL(Rs.cast<LD>() - Rref)), eb = 1e3L * LD(std::numeric_limits<double>::epsilon()) * nA * n;
-            L.ratio("residuals_identity", e / eb);
-            if (!(e <= eb)) viol("residuals", "residuals() differs from A X - B X diag(lambda) by " + gnum(e));
-            for (int i = 0; i < k; i++)
-                if (!(Rref.col(i).norm() < LD(tol) * n)) viol("residual-norm", "column " + num(i) + " has norm " + gnum(Rref.col(i).norm()) + " >= tol*n = " + gnum(LD(tol) * n));
+            if (fresh.info() == Eigen::Success) L.violate(skey + "|status-before-compute", rp, "info() is Success before any compute()");
+            frontier.push_back({fresh, ""});
         }
-        catch (const std::exception& e)
+        catch (const std::exception& e) { L.violate(skey + "|exception", rp, std::string("constructor: ") + e.what()); return; }
+        L.traces++;
+        for (int d = 1; d <= depth && !frontier.empty(); d++)
         {
-            viol("exception", e.what());
+            std::vector<Node> next;
+            for (auto& node : frontier)
+                for (int a = 0; a < NARGS; a++)
+                {
+                    const Arg& arg = ARGS[a];
+                    const std::string hist = node.hist.empty() ? arg_str(arg) : node.hist + ";" + arg_str(arg);
+                    // depth-1 keys keep the format of the original catalogue
+                    const std::string key = d == 1 ? skey + ",maxit=" + num(arg.maxit) + ",tol=" + std::string(gnum(arg.tol)) : skey + "|H=" + hist;
+                    L.evaluations++;
+                    try
+                    {
+                        LOBPCGSolver<double> sv(node.s);
+                        sv.compute(arg.maxit, arg.tol);
+                        L.transitions++;
+                        if (d == 1 && a < 4) L.count("d1_total");
+                        check_state(sv, s, arg.tol, A, B, refvals, key, rp, L, d == 1 && a < 4);
+                        const uint64_t c = canon(sv);
+                        L.states.insert(c ^ (idx * 0x9E3779B97F4A7C15ULL));
+                        if (seen.insert(c).second) { if (d < depth) next.push_back({sv, hist}); }
+                        else L.count("merged_states");
+                        if (d >= 2) L.count("histories_depth>=2");
+                    }
+                    catch (const std::exception& e)
+                    {
+                        L.violate(key + "|exception", rp, e.what());
+                    }
+                }
+            frontier.swap(next);
         }
     });
-    const uint64_t succ = R.total.counters["success"], all = subs.size();
-    int rc = R.finish("the complete cross product of the catalogue above (no random draws); states = subjects; non-trivial = subjects that reached Success",
+    const uint64_t succ = R.total.counters["d1_success"], all = R.total.counters["d1_total"];
+    int rc = R.finish("every history of up to " + num(depth) + " compute(maxit,tol) calls (7 argument pairs) on one solver object, for the complete cross product of the catalogue above (no random draws); "
+                      "states = distinct (iterate, eigenvalues, residuals, status) per subject, merged in the search; non-trivial = (subject, history) states that reached Success",
                       {"reference spectrum from Eigen::GeneralizedSelfAdjointEigenSolver in long double", "X'BX = I to 1e-8 (the solver orthonormalizes by Cholesky of X'BX)",
-                       "the catalogue is restricted to pencils whose k smallest eigenvalues are well separated: the solver caps its iterations at min(n, maxit)"});
+                       "the catalogue is restricted to pencils whose k smallest eigenvalues are well separated: the solver caps its iterations at min(n, maxit)",
+                       "tol in the residual clause is the tolerance of the most recent compute() call"});
     if (cfg.only.empty() && succ * 2 < all)
     {
-        fprintf(stderr, "VACUOUS: only %llu of %llu subjects reached Success\n", (unsigned long long) succ, (unsigned long long) all);
+        fprintf(stderr, "VACUOUS: only %llu of %llu depth-1 subjects reached Success\n", (unsigned long long) succ, (unsigned long long) all);
         return 3;
     }
     return rc;
